@@ -56,17 +56,17 @@ package libaudit
 //@ func (*libaudit.AuditClient).getReply
 //@ requires !isNil(c.Netlink)
 //@ modifies envbytes, alloc, envlog
-//@ ensures[C08] isNil(result1) == (result0 != nil)
-//@ ensures[C08] isNil(result1) ==> result0.Header.Seq == seq && envlen() > old(envlen()) && recvOK(envlen() - 1)
-//@ ensures[C08] isNil(result1) ==> result0.Header.Type == recvMsg(envlen() - 1).Header.Type && result0.Header.Seq == recvMsg(envlen() - 1).Header.Seq && base(result0.Data) == base(recvMsg(envlen() - 1).Data) && lo(result0.Data) == lo(recvMsg(envlen() - 1).Data) && len(result0.Data) == len(recvMsg(envlen() - 1).Data)
-//@ ensures[C08] isNil(result1) ==> rcvType(envlen() - 1) == result0.Header.Type && rcvSeq(envlen() - 1) == seq && rcvLen(envlen() - 1) == len(result0.Data) && rcvWord0(envlen() - 1) == le32(result0.Data, 0)
-//@ ensures[C08] isNil(result1) ==> (forall i int :: old(envlen()) <= i && i < envlen() - 1 && recvOK(i) ==> recvMsg(i).Header.Seq == 0 && seq != 0)
-//@ ensures[C08] isNil(result1) ==> (forall k int :: lo(result0.Data) <= k && k < hi(result0.Data) ==> at(result0.Data, k) == envrbyte(envlen() - 1, k - lo(result0.Data)))
-//@ ensures[C08] forall i int :: old(envlen()) <= i && i < envlen() - 1 && recvOK(i) ==> rcvSeq(i) == 0 && seq != 0
-//@ ensures[C08] !isNil(result1) ==> !(recvOK(envlen() - 1) && rcvSeq(envlen() - 1) == seq)
-//@ ensures[C08] !isNil(result1) ==> envlen() > old(envlen()) && !(recvOK(envlen() - 1) && recvMsg(envlen() - 1).Header.Seq == seq)
-//@ ensures[C08] forall i int :: old(envlen()) <= i && i < envlen() ==> envkind(i) == kRecv()
-//@ ensures[C08] forall i int :: 0 <= i && i < old(envlen()) ==> envkind(i) == old(envkind(i)) && (forall a int :: envarg(i, a) == old(envarg(i, a))) && (forall k int :: envbyte(i, k) == old(envbyte(i, k)))
+//@ ensures[C08,C17] isNil(result1) == (result0 != nil)
+//@ ensures[C08,C17] isNil(result1) ==> result0.Header.Seq == seq && envlen() > old(envlen()) && recvOK(envlen() - 1)
+//@ ensures[C08,C17] isNil(result1) ==> result0.Header.Type == recvMsg(envlen() - 1).Header.Type && result0.Header.Seq == recvMsg(envlen() - 1).Header.Seq && base(result0.Data) == base(recvMsg(envlen() - 1).Data) && lo(result0.Data) == lo(recvMsg(envlen() - 1).Data) && len(result0.Data) == len(recvMsg(envlen() - 1).Data)
+//@ ensures[C08,C17] isNil(result1) ==> rcvType(envlen() - 1) == result0.Header.Type && rcvSeq(envlen() - 1) == seq && rcvLen(envlen() - 1) == len(result0.Data) && rcvWord0(envlen() - 1) == le32(result0.Data, 0)
+//@ ensures[C08,C17] isNil(result1) ==> (forall i int :: old(envlen()) <= i && i < envlen() - 1 && recvOK(i) ==> recvMsg(i).Header.Seq == 0 && seq != 0)
+//@ ensures[C08,C17] isNil(result1) ==> (forall k int :: lo(result0.Data) <= k && k < hi(result0.Data) ==> at(result0.Data, k) == envrbyte(envlen() - 1, k - lo(result0.Data)))
+//@ ensures[C08,C17] forall i int :: old(envlen()) <= i && i < envlen() - 1 && recvOK(i) ==> rcvSeq(i) == 0 && seq != 0
+//@ ensures[C08,C17] !isNil(result1) ==> !(recvOK(envlen() - 1) && rcvSeq(envlen() - 1) == seq)
+//@ ensures[C08,C17] !isNil(result1) ==> envlen() > old(envlen()) && !(recvOK(envlen() - 1) && recvMsg(envlen() - 1).Header.Seq == seq)
+//@ ensures[C08,C17] forall i int :: old(envlen()) <= i && i < envlen() ==> envkind(i) == kRecv()
+//@ ensures[C08,C17] forall i int :: 0 <= i && i < old(envlen()) ==> envkind(i) == old(envkind(i)) && (forall a int :: envarg(i, a) == old(envarg(i, a))) && (forall k int :: envbyte(i, k) == old(envbyte(i, k)))
 //@ loop 0 invariant forall i int :: old(envlen()) <= i && i < envlen() - 1 && recvOK(i) ==> recvMsg(i).Header.Seq == 0 && seq != 0
 //@ loop 0 invariant receiveMore && envlen() > old(envlen()) && recvOK(envlen() - 1) ==> recvMsg(envlen() - 1).Header.Seq == 0 && seq != 0
 //@ loop 0 invariant !receiveMore ==> envlen() > old(envlen()) && recvOK(envlen() - 1) && msg.Header.Type == recvMsg(envlen() - 1).Header.Type && msg.Header.Seq == recvMsg(envlen() - 1).Header.Seq && base(msg.Data) == base(recvMsg(envlen() - 1).Data) && lo(msg.Data) == lo(recvMsg(envlen() - 1).Data) && len(msg.Data) == len(recvMsg(envlen() - 1).Data)
